@@ -602,6 +602,14 @@ def record_runs(ctx, rnd, n, worst):
         for _ in range(dim):
             k = rnd.randint(1, 6 if dim == 1 else 4)
             e, x = [], rnd.choice([-3.5, -1.0, 0.0, 0.1, 2.5])
+            if rnd.random() < 0.3:
+                # an equidistant mesh of lena.math.mesh: the step is in general not representable,
+                # the inner edges are what mesh computed (values exactly on them belong to the cell above)
+                import lena.math
+                k = rnd.randint(2, 12 if dim == 1 else 4)
+                e = [float(t) for t in lena.math.mesh((x, x + rnd.choice([1, 1.0, 0.7, 2, 3.3])), k)]
+                edges.append(e)
+                continue
             for _ in range(k + 1):
                 e.append(x)
                 x = x + rnd.choice([0.1, 0.2, 0.25, 1.0, 1.5, 3.0, 1e-9, 7.0])
@@ -683,6 +691,44 @@ def record_runs(ctx, rnd, n, worst):
                           "e": [[maps[d][lo], maps[d][hi]] for d, (lo, hi) in enumerate(c[1]["bin"]["edges"])]} for c in cells]
                 half = len(named) // 2
                 rec["iter2"] = sorted(named[:half], key=lambda c: c["e"]) + sorted(named[half:], key=lambda c: c["e"])
+            # NESTING: the analysis of every cell is itself SplitIntoBins (by "y", same edges) + IterateBins, so the
+            # cells the outer IterateBins is given already carry context.bin / context.bins: the chain of
+            # descriptions (outermost first) every yielded cell has under context.bin.bin... / context.bins.bins...
+            ncell = 1
+            for e in edges:
+                ncell *= len(e) - 1
+            rec["hasn"], rec["nest"] = bool(out) and ncell <= 9 and rnd.random() < 0.35, []
+            if rec["hasn"]:
+                import lena.core
+                av_y = bl.arg_var_y(dim, 0)
+                names = {av.var_context["name"]: "x", av_y.var_context["name"]: "y"}
+                # (postdup yields one context object twice: the inner IterateBins, which writes into the contexts
+                # of its input, would describe that shared object twice - an aliasing of the harness's element)
+                nkind = "collect2" if kind == "postdup" else kind
+                mk_iter = lambda: ls.IterateBins(create_edges_str=named_edges_str, select_bins=lambda _: True)
+                inner = lena.core.FillComputeSeq(
+                    ls.SplitIntoBins(bl.make_seq(nkind, guard=True), av_y, copy.deepcopy(real_edges)), mk_iter())
+                outer = ls.SplitIntoBins(inner, av, copy.deepcopy(real_edges))
+                for i, v in enumerate(mkvalues()):
+                    try:
+                        outer.fill(v)
+                    except Exception:   # noqa
+                        if fs[i] == "none":
+                            raise
+                chains = []
+                for c in mk_iter().run(iter(list(outer.compute()))):
+                    b, bs, chain, vchain = c[1].get("bin"), c[1].get("bins"), [], []
+                    while isinstance(b, dict):
+                        chain.append({"var": names.get(str(b.get("edges_str")).split(":")[0], "?"),
+                                      "e": [[maps[d][lo], maps[d][hi]] for d, (lo, hi) in enumerate(b["edges"])]})
+                        b = b.get("bin")
+                    while isinstance(bs, dict):
+                        vchain.append(names.get(bs.get("variable", {}).get("name"), "?"))
+                        bs = bs.get("bins")
+                    item = {"bin": chain, "bins": vchain}
+                    if item not in chains:
+                        chains.append(item)
+                rec["nest"] = chains
         except Exception as exc:   # noqa
             size = (10 ** 6 + len(coords), 0, core.canon(rec))
             worst.add("raised %s" % type(exc).__name__, size, {"scenario": bl.scen_text(rec), "exception": repr(exc),
@@ -716,7 +762,7 @@ def make_demo(recs):
     for r in reversed(recs[-5000:]):
         d = {"edges": r["edges"], "form": r["form"], "kind": r["kind"], "flow": r["flow"], "hists": r["hists"],
              "iter": [c["e"] for c in r["iter"]], "hctx": r["hctx"], "vctx": r["vctx"], "errs": r["errs"],
-             "has2": bool(r["iters"]), "iter2": [{"var": f["var"], "e": c["bin"]["e"]} for f in r["iters"][:2] for c in f["cells"]]}
+             "hasn": False, "nest": [], "has2": bool(r["iters"]), "iter2": [{"var": f["var"], "e": c["bin"]["e"]} for f in r["iters"][:2] for c in f["cells"]]}
         if r["kind"] in bl.STATEFUL:
             continue            # (the last compute() of the specification's object is not its first)
         if corrupt(d) is not None:          # a record in which a value can be moved to the next cell
@@ -767,9 +813,12 @@ def run(ctx):
         ctx.distinct.add(core.canon(r))
     if acc < len(clean):
         r = trace[acc]
-        worst.add("recorded run rejected", (10 ** 6 + len(r["flow"]), 0, core.canon(clean[acc])),
+        # (label only: the verdict is Trace_SplitIntoBins's)
+        nested = r.get("hasn") and any(len(c["bin"]) != 2 or c["bins"] != ["x", "y"] for c in r["nest"])
+        worst.add("recorded run rejected" + (" (nested split: chains under context.bin / context.bins of the cells IterateBins yields)"
+                                             if nested else ""), (10 ** 6 + len(r["flow"]), 0, core.canon(clean[acc])),
                   {"scenario": bl.scen_text(r), "real": r["real"], "observed_histograms": r["hists"],
-                   "observed_iter": r["iter"], "where": "Trace_SplitIntoBins", "index": acc})
+                   "observed_iter": r["iter"], "observed_nested_iter": r.get("nest"), "where": "Trace_SplitIntoBins", "index": acc})
     ctx.sample({"recorded_trace_record": trace[min(1, len(trace) - 1)]})
     report(ctx, worst)
 
